@@ -77,10 +77,10 @@ func checkC05(e *Engine, r *Report) {
 			r.Bad("ApplyTransaction › AsMessage", e.Pos(applyTx.Pos()), "not exactly one tx.AsMessage call")
 			return
 		}
-		bf := sliceFrom(argOf(as[0], 1))
+		bf := backSlice(argOf(as[0], 1), SliceOpts{ThroughCallArgs: alwaysThrough, IntoCallees: privHelper(pkgEvmKeeper), Depth: 3})
 		okBF := hasFieldLoad(bf, "EVMConfig", "BaseFee") && bf.Has(func(v ssa.Value) bool {
 			c, ok := v.(*ssa.Call)
-			return ok && isCallTo(c, CallSpec{pkgEvmKeeper, "Keeper", "EVMConfig"}) && resolveLocal(c.Call.Args[1]) == ctxP
+			return ok && isCallTo(c, CallSpec{pkgEvmKeeper, "Keeper", "EVMConfig"}) && argReaches(bf, c, 1, ctxP, 2)
 		})
 		r.Check(okBF, "x/evm/keeper.Keeper.ApplyTransaction › message priced with cfg.BaseFee", e.Pos(as[0].Pos()), "tx.AsMessage(signer, EVMConfig(ctx).BaseFee)", "the execution-side gas price is not derived from the EVM config's base fee of the current context (nil base fee ⇒ refund at fee cap while the ante charged the effective price)")
 		r.Check(resolveLocal(as[0].Common().Args[0]) == ssa.Value(applyTx.Params[2]), "ApplyTransaction › message of the transaction", e.Pos(as[0].Pos()), "AsMessage on the tx parameter", "")
@@ -164,6 +164,35 @@ func checkC05(e *Engine, r *Report) {
 			})
 		}
 		r.Check(okE, "EthTxEffectiveFee › price × gas limit", e.Pos(ef.Pos()), "EthTxEffectiveGasPrice(tx, baseFee) × tx.Gas()", "the prepaid fee is not effective price × gas limit")
+		// the ante deduction: the coins the Ethereum fee checker hands back to the SDK's DeductFeeDecorator are the EFFECTIVE fee
+		// (EthTxEffectiveFee of the transaction at the fee-market base fee), not the fee cap × gas carried by the wrapper —
+		// the refund is paid at the effective price, so deducting at any other price breaks charge = used × effective price
+		{
+			fc := e.Fn(pkgDual, "EthereumTxFeeChecker")
+			okD := len(fc.AnonFuncs) == 1
+			nRet := 0
+			if okD {
+				fn := fc.AnonFuncs[0]
+				for _, ret := range successReturns(fn) {
+					if c, _ := callOf(ret.Results[0]); c != nil && isCallTo(c, CallSpec{pkgDual, "", "checkTxFeeWithValidatorMinGasPrices"}) {
+						continue // genesis-block fallback (gentxs), judged by C09-R5
+					}
+					nRet++
+					sl := backSlice(ret.Results[0], SliceOpts{ThroughCallArgs: alwaysThrough, NoMemory: false})
+					eff := false
+					for _, c := range sl.Calls() {
+						if isCallTo(c, CallSpec{pkgEvmUtils, "", "EthTxEffectiveFee"}) && hasFieldLoad(sliceFrom(c.Call.Args[1]), "Params", "BaseFee") {
+							eff = true
+						}
+					}
+					// and nothing of the wrapper's declared fee
+					if !eff || sl.Has(func(v ssa.Value) bool { c, ok := v.(*ssa.Call); return ok && isMethodNamed(c, "GetFee") }) {
+						okD = false
+					}
+				}
+			}
+			r.Check(okD && nRet > 0, "app/antedl/duallane.EthereumTxFeeChecker › deducts the effective fee", e.Pos(fc.Pos()), "returned coins ← EthTxEffectiveFee(ethTx, feeMarketParams.BaseFee)", "the fee deducted by the ante handler is not the effective fee (price × gas limit at the current base fee) — e.g. the wrapper's fee-cap fee — while the unused gas is refunded at the effective price: a dynamic-fee sender with feeCap > tip + baseFee pays gasLimit × (feeCap − effective price) too much")
+		}
 		// gasPrice of the state transition
 		nst := e.Fn(pkgEvmKeeper, "NewStateTransition")
 		okP := false
